@@ -408,6 +408,8 @@ class ProgGen(object):
         self.big_ints = big_ints                  # probability of a literal beyond 2**53 where an integer literal is generated
         self.derived_chain = derived_chain        # (attribute, helper operation or None): read it on ANOTHER instance
         self.derived_nav = derived_nav            # the derivation reads the instances related to self
+        self.self_rels = schema.get('rels', [])   # [(rel, source class, target class)]: simple associations usable with the NAME self
+        self.self_deleted = False
         self.budget = max_stmts
         self.max_depth = max_depth
         self.params = list(params)            # [(name, ty)]
@@ -817,6 +819,11 @@ class ProgGen(object):
                     acc = ['bin', '!=', acc, e]
                 out.append(['setattr', ['var', z], 'b', acc])
             out.append(['setattr', ['var', z], 'n', total])
+        if self.ret_ty != 'any' and self.self_cls and self.allow_mutation and self.self_rels and not self.derived_attr \
+                and r.random() < 0.06:
+            # the instance deletes itself (its links go with it); nothing after this touches self
+            out.append(['delete', self.self_spelling()])
+            self.self_deleted = True
         if self.ret_ty != 'any':
             # a callable: the declared type decides; every variable the body still sees is folded into the value,
             # so that any disturbance of the caller's / callee's variables shows
@@ -880,6 +887,8 @@ class ProgGen(object):
             choices += [('refread', 5)]
         if self.params:
             choices += [('param_shadow', 6)]
+        if self.self_cls and self.allow_mutation and self.self_rels:
+            choices += [('self_name', 9)]
             if self.allow_delete:
                 choices += [('delete', 7), ('delete_sel', 5)]
         if self.calls:
@@ -1247,6 +1256,46 @@ class ProgGen(object):
             return self.guard_ne([l], pre[:1] + [['if', ['un', 'not_empty', ['var', ta]], [['unrelate', l, ta, 'R4', '']], [], None]])
         self.declare(tx, V('inst', 'X', False))
         return self.guard_ne([l], pre[1:] + [['if', ['un', 'not_empty', ['var', tx]], [['unrelate', tx, l, 'R4', '']], [], None]])
+
+    def self_spelling(self):
+        return self.rng.choice(['self', 'self', 'SELF', 'Self'])
+
+    def st_self_name(self, depth):
+        """`self` used as a VARIABLE NAME (relate / unrelate), in any letter case: it denotes the receiving instance"""
+        r = self.rng
+        if self.self_deleted:
+            return None
+        cands = [x for x in self.self_rels if self.self_cls in (x[1], x[2])]
+        if not cands:
+            return None
+        rel, sc, tc = r.choice(cands)
+        sp = self.self_spelling()
+        if self.self_cls == sc:
+            # self is on the referring side: at most one partner
+            t = self.fresh(tc.lower())
+            self.declare(t, V('inst', tc, False))
+            sel = ['select_rel', 'one', t, ['self'], [[tc, rel, '']], None]
+            if r.random() < 0.5:
+                return [sel, ['if', ['un', 'not_empty', ['var', t]],
+                              [['unrelate', sp, t, rel, ''] if r.random() < 0.5 else ['unrelate', t, sp, rel, '']], [], None]]
+            a = self.fresh(tc.lower())
+            self.declare(a, V('inst', tc, False))
+            return [sel, ['select_from', 'any', a, tc, None],
+                    ['if', ['bin', 'and', ['un', 'empty', ['var', t]], ['un', 'not_empty', ['var', a]]],
+                     [['relate', sp, a, rel, ''] if r.random() < 0.5 else ['relate', a, sp, rel, '']], [], None]]
+        # self is on the referred side
+        b = self.fresh(sc.lower())
+        self.declare(b, V('inst', sc, False))
+        if r.random() < 0.5:
+            return [['select_rel', 'any', b, ['self'], [[sc, rel, '']], None],
+                    ['if', ['un', 'not_empty', ['var', b]],
+                     [['unrelate', b, sp, rel, ''] if r.random() < 0.5 else ['unrelate', sp, b, rel, '']], [], None]]
+        t = self.fresh(tc.lower())
+        self.declare(t, V('inst', tc, False))
+        return [['select_from', 'any', b, sc, None],
+                ['select_rel', 'one', t, ['var', b], [[tc, rel, '']], None],
+                ['if', ['bin', 'and', ['un', 'not_empty', ['var', b]], ['un', 'empty', ['var', t]]],
+                 [['relate', b, sp, rel, ''] if r.random() < 0.5 else ['relate', sp, b, rel, '']], [], None]]
 
     def st_param_shadow(self, depth):
         """parameters and local variables are separate namespaces: a LOCAL variable named like a parameter is assigned a
